@@ -100,3 +100,46 @@ package service
 //@   loop 0: invariant forall k int :: 0 <= k && k < cnt ==> rctBuf[k] != nil
 //@   loop 1: invariant cnt == ghost(it_pos) && cnt >= 0
 //@   loop 1: invariant forall k int :: 0 <= k && k < cnt ==> rctBuf[k] != nil
+
+// ---------------------------------------------------------------------------
+// C37: every transaction selected for a proposal passed, in the pool's Candidate loop itself, the
+// timestamp window of the block being built, the "not included recently" lookup and an updating
+// pre-validation on the proposal's world context
+// ---------------------------------------------------------------------------
+
+//@ property C37
+//@ smt all (declare-fun tim_recent (Iface Str) Bool)
+//@ func (m TXIDManager) HasRecent(g, id, ts) (has, err)
+//@   iface
+//@   trusted
+//@   pure
+//@   ensures err == nil ==> has == tim_recent(m, str(id))
+//@ func (m TXIDManager) AddDroppedTX(id, ts)
+//@   iface
+//@   trusted
+//@   pure
+
+// dynamic dispatch to the verified (*timestampRange).CheckTx above (the only implementation)
+//@ func (r TimestampRange) CheckTx(tx) (err)
+//@   iface
+//@   trusted
+//@   pure
+//@   ensures typeof(r) == typeid(ptr_timestampRange) && as(ptr_timestampRange, r) != nil && tx != nil ==> (err == nil <==> inWindow(as(ptr_timestampRange, r).min, as(ptr_timestampRange, r).max, int64(tx_ts(tx))))
+//@   ensures tx == nil ==> err != nil
+//@ spec selected(tp, r, t) = t != nil && inWindow(r.min, r.max, int64(tx_ts(t))) && !tim_recent(tp.tim, tx_idstr(t)) && ghost(pv_ok)[t]
+//@ func (tp *TransactionPool) Candidate(wc, maxBytes, maxCount) (txs, size)
+//@   arith int
+//@   nosafety
+//@   modifies *
+//@   opt protect tp.tim, tp.group, all(timestampRange.min), all(timestampRange.max)
+//@   opt protect-local txs[*]
+//@   opt go-ignore
+//@   requires tp != nil && tp.tim != nil && wc != nil && tsSane(int64(wc_bts(wc)), int64(wc_txth(wc)))
+//@   ensures [checked] len(txs) > 0 ==> (forall i int :: {txs[i]} 0 <= i && i < len(txs) ==> txs[i] != nil && !tim_recent(tp.tim, tx_idstr(txs[i])) && ghost(pv_ok)[txs[i]])
+//@   ensures [window] len(txs) > 0 && tp.group == module.TransactionGroupNormal ==> (forall i int :: {txs[i]} 0 <= i && i < len(txs) ==> inWindow(int64(wc_bts(wc)) - ((int64(wc_txth(wc)) == 0) ? ConfigTXTimestampThresholdDefault : int64(wc_txth(wc))), int64(wc_bts(wc)) + ((int64(wc_txth(wc)) == 0) ? ConfigTXTimestampThresholdDefault : int64(wc_txth(wc))), int64(tx_ts(txs[i]))))
+//@   ensures [count] len(txs) <= (maxCount <= 0 ? 1500 : maxCount)
+//@   loop 0: invariant typeof(tsr) == typeid(ptr_timestampRange) && as(ptr_timestampRange, tsr) != nil && len(txs) <= maxCount && fresh(txs)
+//@   loop 0: invariant tp.group == module.TransactionGroupNormal ==> as(ptr_timestampRange, tsr).min == int64(wc_bts(wc)) - ((int64(wc_txth(wc)) == 0) ? ConfigTXTimestampThresholdDefault : int64(wc_txth(wc))) && as(ptr_timestampRange, tsr).max == int64(wc_bts(wc)) + ((int64(wc_txth(wc)) == 0) ? ConfigTXTimestampThresholdDefault : int64(wc_txth(wc)))
+//@   loop 0: invariant forall i int :: {txs[i]} 0 <= i && i < len(txs) ==> txs[i] != nil && inWindow(as(ptr_timestampRange, tsr).min, as(ptr_timestampRange, tsr).max, int64(tx_ts(txs[i])))
+//@   loop 0: invariant forall i int :: {txs[i]} 0 <= i && i < len(txs) ==> !tim_recent(tp.tim, tx_idstr(txs[i]))
+//@   loop 0: invariant forall i int :: {txs[i]} 0 <= i && i < len(txs) ==> ghost(pv_ok)[txs[i]]
